@@ -370,7 +370,9 @@ pub fn cases(mix: &str, n: usize, seed: u64) -> Vec<Case> {
             let mut d = Decl { uses: vec![], lifetimes: vec![], params: vec![] };
             for _ in 0..r.below(4) {
                 s.extend(b"@");
-                let u = *r.pick(&["use a::b", "use a::{b, c as d}", "use x::*", "use ::std::fmt", "use super::Content", "use a as b", "use super::Html as Markup", "use super::ToHtml as Render", "use super::statics::*", "use super::{a, b}", "use std::fmt::Write as _"]);
+                let u = *r.pick(&["use a::b", "use a::{b, c as d}", "use x::*", "use ::std::fmt", "use super::Content", "use a as b", "use super::Html as Markup", "use super::ToHtml as Render", "use super::statics::*", "use super::{a, b}", "use std::fmt::Write as _",
+                    // items spelled like the markers a code generator fills in: user text is never a format
+                    "use crate::helpers::{name}", "use m::{args}", "use m::{generics}", "use m::{preamble, body}", "use m::{}", "use m::{0}", "use m::{name, args}", "use m::{type_args}"]);
                 d.uses.push(u.to_string());
                 s.extend(u.as_bytes());
                 s.extend(b";");
